@@ -33,7 +33,57 @@ def scratch_worktree() -> str:
     return SCRATCH
 
 
+def recheck_all(jobs: int) -> int:
+    """Re-run every property check against every recorded change (demo and suite confirmations are kept as recorded): one scratch
+    worktree of /repo's HEAD per worker, patch applied there, `sa.checkall <worktree>`; /repo itself is not touched."""
+    from concurrent.futures import ThreadPoolExecutor
+    ids = sorted(d for d in os.listdir(os.path.join(VERIF, 'seeded')) if os.path.exists(os.path.join(VERIF, 'seeded', d, 'meta.json')))
+    wts = [f"{SCRATCH}-{k}" for k in range(jobs)]
+    for wt in wts:
+        sh(f"git -C /repo worktree remove --force {wt}")
+        sh(f"git -C /repo worktree add -f --detach {wt} HEAD")
+
+    def worker(k):
+        out = []
+        for i in ids[k::jobs]:
+            d = os.path.join(VERIF, 'seeded', i)
+            m = json.load(open(os.path.join(d, 'meta.json')))
+            sh('git checkout -- . && git clean -fdq', cwd=wts[k])
+            rc, o = sh(f"git apply {os.path.join(d, 'patch.diff')}", cwd=wts[k])
+            if rc:
+                out.append((i, None, f"patch does not apply: {o[:200]}")); continue
+            rc, o = sh(f"/venv/bin/python -m sa.checkall {wts[k]}", cwd=VERIF, timeout=900)
+            line = [l for l in o.splitlines() if l.startswith('{')]
+            results = json.loads(line[-1]) if line else {p: {'exit': 2, 'reports': ['checkall produced no output: ' + o[-300:]]} for p in PROPS}
+            m['caught_by'] = [p for p, r in results.items() if r['exit'] == 1]
+            m['analysis_errors'] = [p for p, r in results.items() if r['exit'] == 2]
+            m['target_property_caught'] = m['breaks_property'] in m['caught_by']
+            m['reports'] = {p: r['reports'] for p, r in results.items() if r['exit'] != 0}
+            m['checks_run'] = 'every property check (quick) on a scratch worktree of /repo HEAD with patch.diff applied (tools/seed.py --recheck-all)'
+            m['recorded_at'] = time.strftime('%Y-%m-%d %H:%M')
+            json.dump(m, open(os.path.join(d, 'meta.json'), 'w'), indent=1)
+            out.append((i, m, None))
+        return out
+    try:
+        with ThreadPoolExecutor(jobs) as ex:
+            res = sorted(x for part in ex.map(worker, range(jobs)) for x in part)
+    finally:
+        for wt in wts:
+            sh(f"git -C /repo worktree remove --force {wt}")
+    unc = [i for i, m, e in res if m is not None and not m['caught_by']]
+    errs = [(i, e) for i, m, e in res if e]
+    print(f"{len(res)} recorded changes; caught {sum(1 for i, m, e in res if m and m['caught_by'])}; not caught: {' '.join(unc)}")
+    for i, m, e in res:
+        if m and m['analysis_errors'] and not m['caught_by']:
+            print(f"  {i}: analysis errors only: {m['analysis_errors']}")
+    for i, e in errs:
+        print(f"  {i}: {e}")
+    return 1 if errs else 0
+
+
 def main():
+    if len(sys.argv) > 1 and sys.argv[1] == '--recheck-all':
+        return recheck_all(int(sys.argv[sys.argv.index('--jobs') + 1]) if '--jobs' in sys.argv else 8)
     if len(sys.argv) > 1 and sys.argv[1] in ('--rerun', '--rerun-all'):
         ids = sorted(d for d in os.listdir(os.path.join(VERIF, 'seeded')) if os.path.exists(os.path.join(VERIF, 'seeded', d, 'meta.json'))) if sys.argv[1] == '--rerun-all' else [sys.argv[2]]
         rc = 0
